@@ -328,7 +328,8 @@ def d3_framing(chk, repo, v, r):
     okd = False
     if wt:
         T = local_term(v, wt[1], v.owner(packs[0])) if packs else None
-        okp = len(packs) == 1 and v.eq(v.term(packs[0]), v.spec("struct.pack(*T[representation])", env={"T": T}))
+        okp = len(packs) == 1 and (v.eq(v.term(packs[0]), v.spec("struct.pack(*T[representation])", env={"T": T})) or
+                                   v.eq(v.term(packs[0]), v.spec("struct.pack(T[representation][0], T[representation][1])", env={"T": T})))
         for c, s in v.calls():
             if isinstance(c.func, ast.Attribute) and c.func.attr == "tobytes":
                 t = v.term(c.func.value, at=s)
@@ -426,43 +427,75 @@ def d4_damaged(chk, repo, r):
 
 # ------------------------------------------------------------------ D5
 def d5_chunks(chk, repo, v):
-    chk.rule("C09.D5", "chunked binary write covers the whole array: n_chunks = ceil(len/chunk) and chunk i is [i*chunk, (i+1)*chunk)")
-    nc = find_assign(v, lambda t, s: call_name(v, t) == "math.ceil")
-    okn = False
-    chunk = None
-    flat = None
-    if nc:
-        c = decode_call(v.ctx, nc[2])
-        # ceil(len(X.flat) / K)
-        arg = c[1][0]
-        for st, nm, t in simple_assigns(v):
-            k = t.const()
-            if k is not None and k.denominator == 1 and k > 1:
-                cand = local_term(v, nm, nc[0])
-                for st2, nm2, t2 in simple_assigns(v):
-                    pass
-                chunk = (nm, cand)
-        if chunk:
-            for aid in v.ctx.all_atoms(arg):
-                hd, ar = v.ctx.atoms[aid]
-                if hd == ("attr", "flat"):
-                    flat = v.ctx.var(aid)
-            okn = flat is not None and v.eq(arg, v.spec("len(F) / K", env={"F": flat, "K": chunk[1]}))
-    chk.ob("io.ovf._to_ovf::chunk-count", okn, "C09.D5", "the number of chunks must be ceil(len(array.flat) / chunksize)", v.f)
-    oks = False
-    if nc and chunk and flat is not None:
-        for st in v.stmts():
-            if isinstance(st, ast.For):
-                it = v.term(st.iter, at=st)
-                if v.eq(it, v.spec("range(NC)", env={"NC": local_term(v, nc[1], st)})):
-                    i_ = each(v, it)
-                    for c, s in v.calls():
-                        if isinstance(c.func, ast.Attribute) and c.func.attr == "tobytes" and s in list(walk_stmts(st.body)):
-                            cc = decode_call(v.ctx, v.term(c.func.value, at=s))
-                            if cc and cc[0] == "astype":
-                                want = v.spec("F[i * K:(i + 1) * K]", env={"i": i_, "F": flat, "K": chunk[1]})
-                                oks = v.eq(cc[1][0], want)
-    chk.ob("io.ovf._to_ovf::chunk-slices", oks, "C09.D5", "chunk i must be array.flat[i*chunksize:(i+1)*chunksize]", v.f)
+    chk.rule("C09.D5", "chunked binary write covers the whole array exactly once: either chunk i of ceil(len/chunk) chunks is "
+                       "[i*chunk, (i+1)*chunk), or the chunks start at range(0, len, chunk) and are [start, start+chunk)")
+    okn = oks = False
+    det = "no loop writing `<chunk>.tobytes()` found"
+    for st in v.stmts():
+        if not isinstance(st, ast.For):
+            continue
+        body = list(walk_stmts(st.body))
+        for c, s_ in v.calls():
+            if not (isinstance(c.func, ast.Attribute) and c.func.attr == "tobytes" and s_ in body):
+                continue
+            cc = decode_call(v.ctx, v.term(c.func.value, at=s_))
+            if not (cc and cc[0] == "astype"):
+                continue
+            piece = cc[1][0]
+            hp = v.ctx.head_of(piece)
+            if not (hp and hp[0] == "sub"):
+                det = f"the written chunk {v.show(piece)[:80]} is not a slice"
+                continue
+            F, sl = v.ctx.args_of(piece)
+            hf = v.ctx.head_of(F)
+            if not (hf == ("attr", "flat") and (v.ctx.head_of(sl) or ("",))[0] == "slice"):
+                det = f"the written chunk {v.show(piece)[:80]} is not a slice of <array>.flat"
+                continue
+            X = v.ctx.args_of(F)[0]
+            lo, hi, step = v.ctx.args_of(sl)
+            rng = decode_call(v.ctx, v.term(st.iter, at=st))
+            if not (rng and rng[0] == "range" and not rng[2]):
+                det = f"the chunk loop runs over {v.show(v.term(st.iter, at=st))[:80]}, not over a range"
+                continue
+            i_ = each(v, v.term(st.iter, at=st))
+            total = [v.spec("len(F)", env={"F": F}), v.spec("X.size", env={"X": X})]
+            K = None
+            if len(rng[1]) == 1:
+                # idiom A: range(ceil(total / K)), slice [i*K, (i+1)*K)
+                cn = decode_call(v.ctx, rng[1][0])
+                if cn and cn[0] == "math.ceil" and len(cn[1]) == 1:
+                    for tot in total:
+                        for cand in _int_consts(v, cn[1][0]):
+                            if v.eq(cn[1][0], v.spec("T / K", env={"T": tot, "K": v.ctx.const(cand)})):
+                                K = v.ctx.const(cand)
+                    okn = K is not None
+                    if K is not None:
+                        oks = v.eq(lo, v.spec("i * K", env={"i": i_, "K": K})) and v.eq(hi, v.spec("(i + 1) * K", env={"i": i_, "K": K}))
+                det = f"chunks: range({v.show(rng[1][0])[:60]}), slice [{v.show(lo)[:30]} : {v.show(hi)[:30]}]"
+            elif len(rng[1]) == 3:
+                # idiom B: range(0, total, K), slice [start, start + K)
+                K = rng[1][2]
+                okn = is_const(v.ctx, rng[1][0], 0) and any(v.eq(rng[1][1], tot) for tot in total) and \
+                    K.const() is not None and K.const() > 1
+                oks = okn and v.eq(lo, i_) and v.eq(hi, v.spec("i + K", env={"i": i_, "K": K}))
+                det = f"chunks: range({', '.join(v.show(x)[:30] for x in rng[1])}), slice [{v.show(lo)[:30]} : {v.show(hi)[:30]}]"
+    chk.ob("io.ovf._to_ovf::chunk-count", okn, "C09.D5",
+           f"the chunk starts must cover the whole flattened array (ceil(len/chunk) chunks, or range(0, len, chunk)); {det}", v.f)
+    chk.ob("io.ovf._to_ovf::chunk-slices", oks, "C09.D5",
+           f"each chunk must be the slice of length chunk that starts where the previous one ended; {det}", v.f)
+
+
+def _int_consts(v, t):
+    """integer constants > 1 occurring in a rational term (candidates for the chunk size)"""
+    out = set()
+    for p_ in (t.num, t.den):
+        for mono, coef in p_.items():
+            for x in (coef,):
+                if x.denominator == 1 and abs(x) > 1:
+                    out.add(int(abs(x)))
+                if x.numerator == 1 and x.denominator > 1:
+                    out.add(int(x.denominator))
+    return sorted(out)
 
 
 # ------------------------------------------------------------------ D6
